@@ -5,13 +5,19 @@ import (
 	"encoding/json"
 	"net/http"
 	"net/http/httptest"
+	"os"
+	"path"
 	"sort"
 	"strings"
 
+	"github.com/go-openapi/analysis"
+	"github.com/go-openapi/errors"
 	"github.com/go-openapi/loads"
 	"github.com/go-openapi/runtime"
 	"github.com/go-openapi/runtime/middleware"
 	"github.com/go-openapi/runtime/middleware/untyped"
+	"github.com/go-openapi/spec"
+	"github.com/go-openapi/strfmt"
 
 	"verif/harness/internal/proto"
 )
@@ -61,15 +67,126 @@ func init() {
 	}})
 }
 
+// c01API is one generated description, served through every public way the library offers to
+// dispatch a request (built on first use, kept for the following requests of the description).
 type c01API struct {
-	handler http.Handler
-	last    *string
+	doc                *loads.Document
+	methods, templates []string
+	debug              bool
+	last               *string // what the hook behind the router saw: "R <op> <names> <values>"
+	ran                *int    // index of the operation handler that really ran (-1: none)
+	getOK              bool    // this request's values are read with RouteParams.GetOK instead of Get
+	handlers           [c01NEntries]http.Handler
+	ctxs               [c01NEntries]*middleware.Context
+	routers            [c01NEntries]middleware.Router
 }
+
+// The ways one request is dispatched. Every one ends in defaultRouter.Lookup/OtherMethods; they
+// differ in who builds the router, who asks it and which handler runs:
+const (
+	c01ViaNewRouter     = iota // middleware.NewRouter over NewContext, the harness' own next handler reads MatchedRouteFrom
+	c01ViaRoutesHandler        // Context.RoutesHandler(builder): NewRouter + NewOperationExecutor + the REGISTERED operation handler
+	c01ViaServeBuilder         // middleware.ServeWithBuilder: Spec + Redoc middlewares in front of RoutesHandler
+	c01ViaContext              // Context.RouteInfo / LookupRoute / AllowedMethods called directly
+	c01ViaRouter               // middleware.DefaultRouter(spec, api).Lookup / OtherMethods called directly (own RoutableAPI)
+	c01ViaRoutable             // NewRoutableContext(spec, own RoutableAPI, nil): NewRouter + NewOperationExecutor, route.Handler runs
+	c01ViaGivenRouter          // NewRoutableContextWithAnalyzedSpec with a router handed in (DefaultRouter + WithDefaultRouterLogger)
+	c01NEntries
+)
+
+// c01Quiet swallows the debug output of descriptions built with debugging switched on
+type c01Quiet struct{}
+
+func (c01Quiet) Printf(string, ...interface{}) {}
+func (c01Quiet) Debugf(string, ...interface{}) {}
+
+// c01Routable is a second implementation of middleware.RoutableAPI (what a generated server hands
+// to NewRoutableContext): one http.Handler per operation, registered under the upper-cased method
+// and the template as written.
+type c01Routable struct {
+	handlers map[string]http.Handler
+}
+
+func (c *c01Routable) HandlerFor(method, pth string) (http.Handler, bool) {
+	h, ok := c.handlers[strings.ToUpper(method)+" "+pth]
+	return h, ok
+}
+func (c *c01Routable) ServeErrorFor(string) func(http.ResponseWriter, *http.Request, error) {
+	return errors.ServeError
+}
+func (c *c01Routable) ConsumersFor(mts []string) map[string]runtime.Consumer {
+	res := map[string]runtime.Consumer{}
+	for _, mt := range mts {
+		res[mt] = runtime.JSONConsumer()
+	}
+	return res
+}
+func (c *c01Routable) ProducersFor(mts []string) map[string]runtime.Producer {
+	res := map[string]runtime.Producer{}
+	for _, mt := range mts {
+		res[mt] = runtime.JSONProducer()
+	}
+	return res
+}
+func (c *c01Routable) AuthenticatorsFor(map[string]spec.SecurityScheme) map[string]runtime.Authenticator {
+	return nil
+}
+func (c *c01Routable) Authorizer() runtime.Authorizer { return nil }
+func (c *c01Routable) Formats() strfmt.Registry       { return strfmt.Default }
+func (c *c01Routable) DefaultProduces() string        { return runtime.JSONMime }
+func (c *c01Routable) DefaultConsumes() string        { return runtime.JSONMime }
 
 var c01Cache = map[string]*c01API{}
 
-func c01Build(base string, methods, templates []string) *c01API {
+// c01Sum is a checksum of fields of the case: every choice Exec makes on its own (entry point,
+// shape of the request, warm-up, debugging) is a function of the input, so a case replays identically.
+func c01Sum(fields ...string) int {
+	h := uint32(2166136261)
+	for _, f := range fields {
+		for i := 0; i < len(f); i++ {
+			h = (h ^ uint32(f[i])) * 16777619
+		}
+		h = (h ^ 0xff) * 16777619
+	}
+	return int(h>>3) & 0xfffffff
+}
+
+// c01Record renders what a handler behind the router sees of the matched route
+func c01Record(route *middleware.MatchedRoute, viaGetOK bool) string {
+	names := make([]string, len(route.Params))
+	vals := make([]string, len(route.Params))
+	seen := map[string]int{}
+	for _, p := range route.Params {
+		seen[p.Name]++
+	}
+	for i, p := range route.Params {
+		names[i], vals[i] = p.Name, p.Value
+		if seen[p.Name] == 1 {
+			// a handler usually asks by name: where the name is unique that is the same value.
+			// Both accessors are used (Get, and GetOK as the binder does).
+			if viaGetOK {
+				vv, hasKey, hasValue := route.Params.GetOK(p.Name)
+				switch {
+				case !hasKey || len(vv) != 1:
+					vals[i] = "!nokey"
+				case hasValue != (vv[0] != ""):
+					vals[i] = "!hasvalue"
+				default:
+					vals[i] = vv[0]
+				}
+			} else {
+				vals[i] = route.Params.Get(p.Name)
+			}
+		}
+	}
+	return "R " + strings.TrimPrefix(route.Operation.ID, "op") + " " + proto.L(names) + " " + proto.L(vals)
+}
+
+func c01Load(base string, methods, templates []string, debug bool) *c01API {
 	key := base + "\x00" + strings.Join(methods, "\x01") + "\x00" + strings.Join(templates, "\x01")
+	if debug {
+		key += "\x00debug"
+	}
 	if a, ok := c01Cache[key]; ok {
 		return a
 	}
@@ -88,40 +205,141 @@ func c01Build(base string, methods, templates []string) *c01API {
 		"basePath": base, "paths": paths,
 	}
 	raw, _ := json.Marshal(doc)
-	spec, err := loads.Analyzed(json.RawMessage(raw), "")
+	sp, err := loads.Analyzed(json.RawMessage(raw), "")
 	if err != nil {
 		panic("c01: cannot load generated spec: " + err.Error())
 	}
-	api := untyped.NewAPI(spec)
-	for i, t := range templates {
-		api.RegisterOperation(methods[i], t, runtime.OperationHandlerFunc(func(interface{}) (interface{}, error) { return nil, nil }))
-	}
-	ctx := middleware.NewContext(spec, api, nil)
-	last := new(string)
-	h := middleware.NewRouter(ctx, http.HandlerFunc(func(w http.ResponseWriter, r *http.Request) {
-		route := middleware.MatchedRouteFrom(r)
-		names := make([]string, len(route.Params))
-		vals := make([]string, len(route.Params))
-		seen := map[string]int{}
-		for _, p := range route.Params {
-			seen[p.Name]++
-		}
-		for i, p := range route.Params {
-			names[i], vals[i] = p.Name, p.Value
-			if seen[p.Name] == 1 {
-				// a handler usually asks by name: where the name is unique that is the same value
-				vals[i] = route.Params.Get(p.Name)
-			}
-		}
-		*last = "R " + strings.TrimPrefix(route.Operation.ID, "op") + " " + proto.L(names) + " " + proto.L(vals)
-		w.WriteHeader(http.StatusNoContent)
-	}))
-	a := &c01API{handler: h, last: last}
+	ran := -1
+	a := &c01API{doc: sp, methods: methods, templates: templates, debug: debug, last: new(string), ran: &ran}
 	if len(c01Cache) > 2000 {
 		c01Cache = map[string]*c01API{}
 	}
 	c01Cache[key] = a
 	return a
+}
+
+// untyped builds the untyped API of the description: every operation has a handler registered under
+// its method and its template as written; the handler says which operation it is.
+func (a *c01API) untyped() *untyped.API {
+	api := untyped.NewAPI(a.doc)
+	for i, t := range a.templates {
+		i := i
+		api.RegisterOperation(a.methods[i], t, runtime.OperationHandlerFunc(func(interface{}) (interface{}, error) {
+			*a.ran = i
+			return nil, nil
+		}))
+	}
+	return api
+}
+
+func (a *c01API) routable() *c01Routable {
+	rt := &c01Routable{handlers: map[string]http.Handler{}}
+	for i, t := range a.templates {
+		i := i
+		rt.handlers[strings.ToUpper(a.methods[i])+" "+t] = http.HandlerFunc(func(w http.ResponseWriter, r *http.Request) {
+			*a.ran = i
+			if route := middleware.MatchedRouteFrom(r); route != nil {
+				*a.last = c01Record(route, a.getOK)
+			}
+			w.WriteHeader(http.StatusNoContent)
+		})
+	}
+	return rt
+}
+
+// build prepares entry point e. With a.debug the objects are built and used the way
+// SWAGGER_DEBUG=1 makes them (debugLogf is chosen at construction, middleware.Debug guards a block
+// of Lookup); the output goes to a silent logger.
+func (a *c01API) build(e int) {
+	if a.handlers[e] != nil || a.ctxs[e] != nil || a.routers[e] != nil {
+		return
+	}
+	if a.debug {
+		oldLogger, oldEnv, had := middleware.Logger, os.Getenv("SWAGGER_DEBUG"), false
+		_, had = os.LookupEnv("SWAGGER_DEBUG")
+		middleware.Logger = c01Quiet{}
+		os.Setenv("SWAGGER_DEBUG", "1")
+		defer func() {
+			middleware.Logger = oldLogger
+			if had {
+				os.Setenv("SWAGGER_DEBUG", oldEnv)
+			} else {
+				os.Unsetenv("SWAGGER_DEBUG")
+			}
+		}()
+	}
+	// the hook a server puts behind the router (a Builder, or NewRouter's next handler)
+	hook := func(next http.Handler) http.Handler {
+		return http.HandlerFunc(func(w http.ResponseWriter, r *http.Request) {
+			if route := middleware.MatchedRouteFrom(r); route != nil {
+				*a.last = c01Record(route, a.getOK)
+			}
+			if next != nil {
+				next.ServeHTTP(w, r)
+				return
+			}
+			w.WriteHeader(http.StatusNoContent)
+		})
+	}
+	switch e {
+	case c01ViaNewRouter:
+		a.handlers[e] = middleware.NewRouter(middleware.NewContext(a.doc, a.untyped(), nil), hook(nil))
+	case c01ViaRoutesHandler:
+		a.handlers[e] = middleware.NewContext(a.doc, a.untyped(), nil).RoutesHandler(hook)
+	case c01ViaServeBuilder:
+		a.handlers[e] = middleware.ServeWithBuilder(a.doc, a.untyped(), hook)
+	case c01ViaContext:
+		ctx := middleware.NewContext(a.doc, a.untyped(), nil)
+		_ = middleware.NewRouter(ctx, nil) // installs the default router, as every handler constructor does
+		a.ctxs[e] = ctx
+	case c01ViaRouter:
+		if a.debug {
+			a.routers[e] = middleware.DefaultRouter(a.doc, a.routable(), middleware.WithDefaultRouterLogger(c01Quiet{}))
+		} else {
+			a.routers[e] = middleware.DefaultRouter(a.doc, a.routable())
+		}
+	case c01ViaRoutable:
+		ctx := middleware.NewRoutableContext(a.doc, a.routable(), nil)
+		a.handlers[e] = middleware.NewRouter(ctx, middleware.NewOperationExecutor(ctx))
+	case c01ViaGivenRouter:
+		rt := a.routable()
+		ctx := middleware.NewRoutableContextWithAnalyzedSpec(a.doc, analysis.New(a.doc.Spec()), rt,
+			middleware.DefaultRouter(a.doc, rt, middleware.WithDefaultRouterLogger(c01Quiet{})))
+		a.handlers[e] = middleware.NewRouter(ctx, middleware.NewOperationExecutor(ctx))
+	}
+}
+
+// c01Request has net/http parse the request line; shape picks one of the equivalent ways the same
+// method and path reach a server.
+func c01Request(method, target string, shape int) (*http.Request, bool) {
+	line, version, extra := target, "HTTP/1.1", ""
+	switch shape {
+	case 1:
+		// a query string (with dot segments, slashes and names of placeholders): not part of the path
+		line = target + "?id=9&name=/a/../b&x=%2F..%2F&petId=mine"
+	case 2:
+		// absolute-form request target (what a proxy receives)
+		line = "http://example.test" + target
+	case 3:
+		// HTTP/1.0 and headers that must not influence the dispatch
+		version = "HTTP/1.0"
+		extra = "X-Http-Method-Override: DELETE\r\nX-Original-Url: /pets/1\r\nX-Forwarded-Prefix: /api\r\nAccept: */*\r\n"
+	case 4:
+		// an empty query
+		line = target + "?"
+	case 5:
+		// a request made by http.NewRequest (url.Parse instead of ParseRequestURI), as handler tests do
+		if r, err := http.NewRequest(method, "http://example.test"+target, nil); err == nil && r.URL.EscapedPath() == target {
+			r.RequestURI = target
+			return r, true
+		}
+	}
+	req, err := http.ReadRequest(bufio.NewReader(strings.NewReader(method + " " + line + " " + version + "\r\nHost: example.test\r\n" + extra + "\r\n")))
+	if err != nil || req.URL.EscapedPath() != target {
+		// not a target net/http delivers as such (or it carries a query): outside the quantifier
+		return nil, false
+	}
+	return req, true
 }
 
 func c01Exec(in []string) []string {
@@ -149,34 +367,118 @@ func c01Exec(in []string) []string {
 			return []string{"INVALID"}
 		}
 	}
-	req, err := http.ReadRequest(bufio.NewReader(strings.NewReader(method + " " + target + " HTTP/1.1\r\nHost: example.test\r\n\r\n")))
-	if err != nil || req.URL.EscapedPath() != target {
-		// not a target net/http delivers as such (or it carries a query): outside the quantifier
+	if _, ok := c01Request(method, target, 0); !ok {
 		return []string{"INVALID"}
 	}
-	a := c01Build(base, methods, templates)
-	*a.last = ""
-	rec := httptest.NewRecorder()
-	a.handler.ServeHTTP(rec, req)
-	switch {
-	case *a.last != "":
-		return strings.Fields(*a.last)
-	case rec.Code == http.StatusMethodNotAllowed:
+	// Choices of the harness, all functions of the input. The description decides whether debugging
+	// is on (1 in 8); description and request together decide the entry point; the request decides
+	// its shape, the accessor and whether other requests are served first.
+	dsum, rsum := c01Sum(in[1], in[2], in[3]), c01Sum(in[4], in[5])
+	debug := dsum%8 == 7
+	entry := (dsum/8 + rsum/128) % c01NEntries
+	shape := (rsum / 2) % 6
+	viaGetOK := (rsum/16)%2 == 1
+	warm := (rsum/32)%4 == 0
+	req, ok := c01Request(method, target, shape)
+	if !ok {
+		req, _ = c01Request(method, target, 0)
+	}
+	a := c01Load(base, methods, templates, debug)
+	a.build(entry)
+	a.getOK = viaGetOK
+	if debug {
+		old := middleware.Debug
+		middleware.Debug = true
+		defer func() { middleware.Debug = old }()
+	}
+	serve := func(req *http.Request) []string {
+		*a.last, *a.ran = "", -1
+		var code int
 		var allow []string
-		for _, m := range strings.Split(rec.Header().Get("Allow"), ",") {
-			if m = strings.TrimSpace(m); m != "" {
-				allow = append(allow, m)
+		switch {
+		case a.handlers[entry] != nil:
+			rec := httptest.NewRecorder()
+			a.handlers[entry].ServeHTTP(rec, req)
+			code = rec.Code
+			for _, m := range strings.Split(rec.Header().Get("Allow"), ",") {
+				if m = strings.TrimSpace(m); m != "" {
+					allow = append(allow, m)
+				}
+			}
+			if *a.last != "" {
+				f := strings.Fields(*a.last)
+				if entry != c01ViaNewRouter {
+					// the operation handler that ran says which operation it is
+					if *a.ran < 0 {
+						return []string{"NOHANDLER", proto.N(code)}
+					}
+					f[1] = proto.N(*a.ran)
+				}
+				return f
+			}
+			if *a.ran >= 0 {
+				return []string{"HANDLER-WITHOUT-ROUTE", proto.N(*a.ran)}
+			}
+		case a.ctxs[entry] != nil:
+			ctx := a.ctxs[entry]
+			var route *middleware.MatchedRoute
+			var found bool
+			if viaGetOK {
+				route, found = ctx.LookupRoute(req)
+			} else {
+				var r2 *http.Request
+				route, r2, found = ctx.RouteInfo(req)
+				if found {
+					// asking again with the returned request gives the remembered route
+					route, _, found = ctx.RouteInfo(r2)
+				}
+			}
+			if found {
+				return strings.Fields(c01Record(route, viaGetOK))
+			}
+			allow = ctx.AllowedMethods(req)
+			code = http.StatusNotFound
+			if len(allow) > 0 {
+				code = http.StatusMethodNotAllowed
+			}
+		default:
+			rt := a.routers[entry]
+			if route, found := rt.Lookup(req.Method, req.URL.EscapedPath()); found {
+				return strings.Fields(c01Record(route, viaGetOK))
+			}
+			allow = rt.OtherMethods(req.Method, req.URL.EscapedPath())
+			code = http.StatusNotFound
+			if len(allow) > 0 {
+				code = http.StatusMethodNotAllowed
 			}
 		}
-		sort.Strings(allow)
-		return []string{"A", proto.L(allow)}
-	case rec.Code == http.StatusNotFound:
-		return []string{"N"}
+		switch code {
+		case http.StatusMethodNotAllowed:
+			sort.Strings(allow)
+			return []string{"A", proto.L(allow)}
+		case http.StatusNotFound:
+			return []string{"N"}
+		}
+		return []string{"STATUS", proto.N(code)}
 	}
-	return []string{"STATUS", proto.N(rec.Code)}
+	if warm {
+		// another request first, on the same objects: the same path under another method and a
+		// neighbouring path under the same method; what they answer is not this case's business
+		other := "OPTIONS"
+		if strings.EqualFold(method, other) {
+			other = "GET"
+		}
+		if w, ok := c01Request(other, target, 0); ok {
+			serve(w)
+		}
+		if w, ok := c01Request(method, path.Join("/", path.Dir(target), "warm-up"), 0); ok {
+			serve(w)
+		}
+	}
+	return serve(req)
 }
 
-var c01Segs = []string{"pets", "store", "a", "b", "ab", "v1", "x.y", "mine", "é", "a-b", "a_b", "~u"}
+var c01Segs = []string{"pets", "store", "a", "b", "ab", "v1", "x.y", "mine", "é", "a-b", "a_b", "~u", "Pets", "a%20b", "1"}
 
 // c01Composite writes one segment that mixes placeholders with static text:
 // [prefix] {n0} sep {n1} [sep {n2}] [suffix]
@@ -262,7 +564,11 @@ func c01Template(r *proto.Rng, odd, comp bool, shared string) string {
 	return sb.String()
 }
 
-var c01Values = []string{"1", "42", "kitty", "a%2Fb", "50%25", "%zz", ":", "*", "%23", ";", "a=b", "%C3%A9", ".", "..", "", "x.json", "a-b", "a--b", "mine", "a:b", "a+b", "+1", "%2B", "a%20b", "%41", "%7Bx%7D", "a,b", "@", "$", "&", "!", "(x)", "'", "~"}
+var c01Values = []string{"1", "42", "kitty", "a%2Fb", "50%25", "%zz", ":", "*", "%23", ";", "a=b", "%C3%A9", ".", "..", "", "x.json", "a-b", "a--b", "mine", "a:b", "a+b", "+1", "%2B", "a%20b", "%41", "%7Bx%7D", "a,b", "@", "$", "&", "!", "(x)", "'", "~",
+	// lower-case escapes, escaped dots and dot segments, NUL, invalid UTF-8, three-byte rune, a double escape,
+	// matrix parameters, the text of a sibling in another letter case, a long value
+	"%c3%a9", "a%2fb", "%2E", "%2e%2e", "a%2F..%2Fb", "%00", "%FF", "%E2%82%AC", "%2525", "%252F", "a;v=1", "Mine", "PETS",
+	"0123456789abcdefghijklmnopqrstuvwxyz-0123456789abcdefghijklmnopqrstuvwxyz-0123456789abcdefghijklmnopqrstuvwxyz_ABCDEFGHIJKLMNOPQRSTUVWXYZ~%41%42%43"}
 
 // values for the placeholders of a composite segment: mostly free of every separator (one
 // instantiation), some that contain or escape a separator, some empty
@@ -275,6 +581,13 @@ func c01Instance(r *proto.Rng, base, tmpl string) string {
 	full := strings.TrimRight(base, "/") + tmpl
 	if !strings.HasPrefix(full, "/") {
 		full = "/" + full
+	}
+	if !strings.HasPrefix(base, "/") && base != "" || strings.Contains(base, "//") || strings.Contains(base, "/.") {
+		// a base path that is not in cleaned form: the routed path is path.Join(base, template)
+		full = path.Join(base, tmpl)
+		if strings.HasSuffix(tmpl, "/") && full != "/" {
+			full += "/"
+		}
 	}
 	var sb strings.Builder
 	for i := 0; i < len(full); i++ {
@@ -294,9 +607,32 @@ func c01Instance(r *proto.Rng, base, tmpl string) string {
 				continue
 			}
 		}
+		if full[i] >= 0x80 {
+			// net/http delivers the non-ASCII text of a path percent-encoded only (a raw byte makes
+			// EscapedPath differ from the target: the case would be INVALID)
+			const hexd = "0123456789ABCDEF"
+			sb.WriteString("%" + string(hexd[full[i]>>4]) + string(hexd[full[i]&15]))
+			continue
+		}
 		sb.WriteByte(full[i])
 	}
 	return sb.String()
+}
+
+// c01FlipCase writes a method in some other letter case (net/http hands on the method as spelled)
+func c01FlipCase(r *proto.Rng, m string) string {
+	b := []byte(m)
+	for i := range b {
+		if r.Chance(1, 2) {
+			switch {
+			case b[i] >= 'a' && b[i] <= 'z':
+				b[i] -= 32
+			case b[i] >= 'A' && b[i] <= 'Z':
+				b[i] += 32
+			}
+		}
+	}
+	return string(b)
 }
 
 // c01BracesPair: every '{' opens a non-empty brace-free name closed by '}', no '}' elsewhere
@@ -346,7 +682,8 @@ func c01RepeatsName(t string) bool {
 }
 
 func c01Gen(r *proto.Rng, n int, tier string, emit func(in ...string)) {
-	allMethods := []string{"get", "post", "put", "delete", "GET", "Post", "patch", "head"}
+	// all seven operations of a swagger 2.0 path item, registered in several spellings
+	allMethods := []string{"get", "post", "put", "delete", "GET", "Post", "patch", "head", "options", "OPTIONS", "Head", "DELETE", "pAtCh"}
 	for i := 0; i < n; {
 		odd := r.Chance(1, 6)
 		comp := !odd && r.Chance(2, 5) // descriptions with composite segments: [prefix]{a}sep{b}[suffix]
@@ -355,6 +692,10 @@ func c01Gen(r *proto.Rng, n int, tier string, emit func(in ...string)) {
 			shared = r.Pick("id", "id", "name", "x", "petId")
 		}
 		base := r.Pick("/", "/", "", "/api", "/api/", "/v1/base", "/a")
+		if r.Chance(1, 8) {
+			// base paths that are not in cleaned form, without a leading slash, deeper, with text net/url escapes
+			base = r.Pick("api", "/api//v2", "/api/../v2", "/./", "//", "/a/b/c/", "/api/.", "a/b", "/v1//", "/b%20c", "/~u")
+		}
 		nops := 1 + r.Intn(7)
 		if tier == "thorough" && r.Chance(1, 4) {
 			nops = 8 + r.Intn(12)
@@ -363,6 +704,9 @@ func c01Gen(r *proto.Rng, n int, tier string, emit func(in ...string)) {
 		seen := map[string]bool{}
 		for len(methods) < nops {
 			t := c01Template(r, odd, comp, shared)
+			if r.Chance(1, 30) {
+				t = "/" // the root template
+			}
 			if len(templates) > 0 && r.Chance(1, 3) {
 				// sibling: shares a prefix with an earlier template
 				prev := templates[r.Intn(len(templates))]
@@ -396,7 +740,34 @@ func c01Gen(r *proto.Rng, n int, tier string, emit func(in ...string)) {
 				t = templates[r.Intn(len(templates))]
 			}
 			p := c01Instance(r, base, t)
-			switch r.Intn(11) {
+			switch r.Intn(21) {
+			case 11:
+				// a dot segment in the middle
+				if k := strings.LastIndexByte(p, '/'); k >= 0 {
+					p = p[:k] + r.Pick("/.", "/./.", "/x/..", "//.") + p[k:]
+				}
+			case 12:
+				// dot segments in front (path.Clean stops at the root), or at the very end
+				if r.Chance(1, 2) {
+					p = r.Pick("/..", "/.", "/../..") + p
+				} else {
+					p += r.Pick("/.", "//", "/./", "/x/..", "/x/../")
+				}
+			case 13:
+				// paths are compared as spelled: another letter case of one letter
+				b := []byte(p)
+				for k := r.Intn(len(b)); k < len(b); k++ {
+					if b[k] >= 'a' && b[k] <= 'z' {
+						b[k] -= 32
+						break
+					}
+				}
+				p = string(b)
+			case 14:
+				// an escaped slash where the template has a real one, an escaped letter of static text
+				if k := strings.LastIndexByte(p, '/'); k > 0 {
+					p = p[:k] + r.Pick("%2F", "%2f") + p[k+1:]
+				}
 			case 10:
 				// drop one byte (a separator, a suffix byte, ...)
 				if len(p) > 2 {
@@ -417,11 +788,15 @@ func c01Gen(r *proto.Rng, n int, tier string, emit func(in ...string)) {
 					p = p[:k] + r.Pick("x", "/", "", ".") + p[k:]
 				}
 			}
-			m := r.Pick("GET", "get", "POST", "Put", "DELETE", "PATCH", "HEAD", "OPTIONS")
-			if r.Chance(1, 2) || (comp && r.Chance(1, 2)) {
+			// methods no operation of a swagger 2.0 document can have are requests too
+			m := r.Pick("GET", "get", "POST", "Put", "DELETE", "PATCH", "HEAD", "OPTIONS", "Options", "TRACE", "PROPFIND", "QUERY", "M-SEARCH")
+			if r.Chance(3, 5) || (comp && r.Chance(1, 2)) {
 				m = strings.ToUpper(methods[r.Intn(len(methods))])
-				if r.Chance(1, 4) {
+				switch r.Intn(8) {
+				case 0, 1:
 					m = strings.ToLower(m)
+				case 2:
+					m = c01FlipCase(r, m)
 				}
 			}
 			emit("D", proto.B(base), lm, lt, proto.B(m), proto.B(p))
